@@ -1097,6 +1097,9 @@ Record oreq := mkOReq {
   o_kind : kind; o_a : Z; o_p : Z; o_i : Z; o_manual : bool;
   o_op : Z;      (* index of the operation that emitted it *)
   o_ref : Z;     (* tick counter of the target when requested (reset by BACKOFF) *)
+  o_soft : bool;   (* a request attributed to the user for a wait_exit program that is RUNNING: the trace cannot tell
+                      whether it was the user command (done) or the application command (waiting for the exit);
+                      it constrains nothing and may justify a reported progress *)
   o_lost : bool }. (* its host was lost (given up for the ordering statements; C10 still follows it until the
                       sequencer drops it) *)
 
@@ -1105,7 +1108,7 @@ Record sspec := mkSSpec {
   ss_last : list (Z * Z * Z * pstate);   (* last accepted report of (a, p, i) *)
   ss_reqs : list oreq;
   ss_manual_start : list (Z * Z);
-  ss_manual_stop : list (Z * Z);
+  ss_manual_stop : list (Z * Z * Z);     (* (a, p, i) : stop asked for that process by the user, not yet emitted *)
   ss_user_apps : list Z;                 (* applications the user asked to start *)
   ss_plans : alist Z;                    (* app -> number of start plans requested so far *)
   ss_aborts : alist Z;                   (* app -> number of aborted runs so far *)
@@ -1136,7 +1139,7 @@ Definition set_last (l : list (Z * Z * Z * pstate)) (a p i : Z) (s : pstate) : l
 Definition ss_with (ss : sspec) (insts : alist sinst) (last : list (Z * Z * Z * pstate)) (reqs : list oreq) : sspec :=
   mkSSpec insts last reqs (ss_manual_start ss) (ss_manual_stop ss) (ss_user_apps ss) (ss_plans ss) (ss_aborts ss)
           (ss_flag ss) (ss_flag_to ss) (ss_lostids ss) (ss_noresource ss) (ss_vios ss).
-Definition ss_marks (ss : sspec) (ms mp : list (Z * Z)) (ua : list Z) (plans : alist Z) : sspec :=
+Definition ss_marks (ss : sspec) (ms : list (Z * Z)) (mp : list (Z * Z * Z)) (ua : list Z) (plans : alist Z) : sspec :=
   mkSSpec (ss_insts ss) (ss_last ss) (ss_reqs ss) ms mp ua plans (ss_aborts ss)
           (ss_flag ss) (ss_flag_to ss) (ss_lostids ss) (ss_noresource ss) (ss_vios ss).
 Definition ss_flags (ss : sspec) (aborts : alist Z) (flag flag_to : list Z) (nores : bool) : sspec :=
@@ -1173,6 +1176,25 @@ Definition start_done (r : prules) (manual : bool) (s : pstate) (expected : bool
   | _ => Some true
   end.
 
+Definition listed_like (s : pstate) : bool :=
+  match s with STARTING | BACKOFF | RUNNING | STOPPING => true | _ => false end.
+Definition spec_proc_insts (cf : config) (a p : Z) : list Z :=
+  match cf_proc cf a p with Some pc => pc_insts pc | None => [] end.
+(* ProcessStatus.stopped() as C11 specifies it: no instance lists the process *)
+Definition spec_proc_stopped (cf : config) (ss : sspec) (a p : Z) : bool :=
+  forallb (fun i => negb (listed_like (last_state ss a p i))) (spec_proc_insts cf a p).
+Definition spec_stop_marks (cf : config) (ss : sspec) (a p : Z) (ids : list Z) : list (Z * Z * Z) :=
+  map (fun i => (a, p, i))
+      (filter (fun i => listed_like (last_state ss a p i) && match ids with [] => true | _ => zmem i ids end)
+              (spec_proc_insts cf a p)).
+Definition triple_mem (a p i : Z) (l : list (Z * Z * Z)) : bool :=
+  existsb (fun x => let '(a', p', i') := x in Z.eqb a a' && Z.eqb p p' && Z.eqb i i') l.
+Fixpoint pair_remove (a p : Z) (l : list (Z * Z)) : list (Z * Z) :=
+  match l with
+  | [] => []
+  | x :: r => if Z.eqb (fst x) a && Z.eqb (snd x) p then r else x :: pair_remove a p r
+  end.
+
 Definition spec_event (cf : config) (ss : sspec) (i a p : Z) (s : pstate) (expected : bool) : sspec :=
   let accepted := match aget i (ss_insts ss), cf_proc cf a p with
                   | Some ins, Some pc => inst_accepts ins && zmem i (pc_insts pc)
@@ -1181,16 +1203,18 @@ Definition spec_event (cf : config) (ss : sspec) (i a p : Z) (s : pstate) (expec
   let cnt := match aget i (ss_insts ss) with Some ins => in_counter ins | None => 0 end in
   let mine (o : oreq) := Z.eqb (o_a o) a && Z.eqb (o_p o) p && Z.eqb (o_i o) i in
   let r := cf_rules cf a p in
-  let failed := existsb (fun o => mine o && kind_eqb (o_kind o) KStart
+  let failed := existsb (fun o => mine o && kind_eqb (o_kind o) KStart && negb (o_manual o)
                                   && match start_done r (o_manual o) s expected with Some true => true | _ => false end)
                         (ss_reqs ss) in
   let reqs := flat_map (fun o =>
       if mine o then
         match o_kind o with
         | KStart => match start_done r (o_manual o) s expected with
-                    | Some _ => []
+                    | Some _ => if o_manual o && pr_wait_exit r && pstate_eqb s RUNNING
+                                then [mkOReq (o_kind o) (o_a o) (o_p o) (o_i o) true (o_op o) (o_ref o) true (o_lost o)]
+                                else []
                     | None => [if pstate_eqb s BACKOFF
-                               then mkOReq (o_kind o) (o_a o) (o_p o) (o_i o) (o_manual o) (o_op o) cnt (o_lost o) else o]
+                               then mkOReq (o_kind o) (o_a o) (o_p o) (o_i o) (o_manual o) (o_op o) cnt (o_soft o) (o_lost o) else o]
                     end
         | KStop => if is_stopped s then [] else [o]
         end
@@ -1198,8 +1222,6 @@ Definition spec_event (cf : config) (ss : sspec) (i a p : Z) (s : pstate) (expec
   let ss1 := ss_with ss (ss_insts ss) (set_last (ss_last ss) a p i s) reqs in
   if failed then spec_failure cf ss1 a p false else ss1.
 
-Definition listed_like (s : pstate) : bool :=
-  match s with STARTING | BACKOFF | RUNNING | STOPPING => true | _ => false end.
 
 Definition spec_op (cf : config) (ss : sspec) (o : op) : sspec :=
   match o with
@@ -1219,8 +1241,9 @@ Definition spec_op (cf : config) (ss : sspec) (o : op) : sspec :=
         (filter (fun o => let s := last_state ss (o_a o) (o_p o) (o_i o) in
                           match o_kind o with
                           | KStop => negb (is_stopped s)
-                          | KStart => negb (pstate_eqb s RUNNING
-                                            && negb (pr_wait_exit (cf_rules cf (o_a o) (o_p o)) && negb (o_manual o)))
+                          | KStart => o_soft o
+                                      || negb (pstate_eqb s RUNNING
+                                               && negb (pr_wait_exit (cf_rules cf (o_a o) (o_p o)) && negb (o_manual o)))
                           end) (ss_reqs ss))
   | OpCtxInvalidate ids =>
       let insts := map (fun kv => if zmem (fst kv) ids
@@ -1228,16 +1251,19 @@ Definition spec_op (cf : config) (ss : sspec) (o : op) : sspec :=
                                   else kv) (ss_insts ss) in
       let last := map (fun x => let '(a, p, i, s) := x in
                                 if zmem i ids && listed_like s then (a, p, i, FATAL) else x) (ss_last ss) in
-      let hit := filter (fun o => zmem (o_i o) ids && negb (o_lost o)) (ss_reqs ss) in
       let reqs := map (fun o => if zmem (o_i o) ids
-                                then mkOReq (o_kind o) (o_a o) (o_p o) (o_i o) (o_manual o) (o_op o) (o_ref o) true
+                                then mkOReq (o_kind o) (o_a o) (o_p o) (o_i o) (o_manual o) (o_op o) (o_ref o) (o_soft o) true
                                 else o) (ss_reqs ss) in
-      let ss1 := ss_lost_set (ss_with ss insts last reqs) (filter (fun i => zmem i ids) (akeys (ss_insts ss))) in
-      fold_left (fun ss o => match o_kind o with KStart => spec_failure cf ss (o_a o) (o_p o) false | KStop => ss end)
-                hit ss1
+      ss_lost_set (ss_with ss insts last reqs) (filter (fun i => zmem i ids) (akeys (ss_insts ss)))
   | OpCmdInvalidate =>
       let lost := ss_lostids ss in
-      ss_with ss (ss_insts ss) (ss_last ss) (filter (fun o => negb (zmem (o_i o) lost)) (ss_reqs ss))
+      (* the sequencers learn the loss: the requests still pending there are given up as failures *)
+      let gone := filter (fun o => zmem (o_i o) lost) (ss_reqs ss) in
+      let ss1 := ss_with ss (ss_insts ss) (ss_last ss) (filter (fun o => negb (zmem (o_i o) lost)) (ss_reqs ss)) in
+      fold_left (fun ss o => match o_kind o with
+                             | KStart => if o_manual o then ss else spec_failure cf ss (o_a o) (o_p o) false
+                             | KStop => ss end)
+                gone ss1
   | OpInstState i code =>
       match aget i (ss_insts ss) with
       | Some ins => ss_with ss (aset i (mkSInst code (in_counter ins)) (ss_insts ss)) (ss_last ss) (ss_reqs ss)
@@ -1251,11 +1277,20 @@ Definition spec_op (cf : config) (ss : sspec) (o : op) : sspec :=
           ss_marks ss (ss_manual_start ss) (ss_manual_stop ss) (ss_user_apps ss)
                    (fold_left (fun pl ac => aset (ac_name ac) (aget0 (ac_name ac) pl + 1) pl) (cf_apps cf) (ss_plans ss))
       | CStartProc _ a p =>
-          ss_marks ss ((a, p) :: ss_manual_start ss) (ss_manual_stop ss) (zadd a (ss_user_apps ss)) (ss_plans ss)
+          (* accepted only when the process is stopped *)
+          if spec_proc_stopped cf ss a p
+          then ss_marks ss ((a, p) :: ss_manual_start ss) (ss_manual_stop ss) (zadd a (ss_user_apps ss)) (ss_plans ss)
+          else ss
       | CRestartProc _ a p =>
-          ss_marks ss ((a, p) :: ss_manual_start ss) ((a, p) :: ss_manual_stop ss) (zadd a (ss_user_apps ss))
+          if spec_proc_stopped cf ss a p
+          then ss_marks ss ((a, p) :: ss_manual_start ss) (ss_manual_stop ss) (zadd a (ss_user_apps ss)) (ss_plans ss)
+          else if existsb (fun i => is_running_like (last_state ss a p i)) (spec_proc_insts cf a p)
+          then ss_marks ss ((a, p) :: ss_manual_start ss) (spec_stop_marks cf ss a p [] ++ ss_manual_stop ss)
+                        (zadd a (ss_user_apps ss)) (ss_plans ss)
+          else ss
+      | CStopProc a p ids =>
+          ss_marks ss (ss_manual_start ss) (spec_stop_marks cf ss a p ids ++ ss_manual_stop ss) (ss_user_apps ss)
                    (ss_plans ss)
-      | CStopProc a p _ => ss_marks ss (ss_manual_start ss) ((a, p) :: ss_manual_stop ss) (ss_user_apps ss) (ss_plans ss)
       | CAbort k => ss_with ss (ss_insts ss) (ss_last ss) (filter (fun o => negb (kind_eqb (o_kind o) k)) (ss_reqs ss))
       | _ => ss
       end
@@ -1287,9 +1322,11 @@ Definition spec_out (cf : config) (k : Z) (ss : sspec) (o : out) : sspec :=
         then ss_flags (ss_check ss_d (Z.ltb 1 (aget0 a (ss_plans ss_d))) V_strategy_timeout)
                       (ss_aborts ss_d) (ss_flag ss_d) (zdiscard a (ss_flag_to ss_d)) (ss_noresource ss_d)
         else ss_d in
-      ss_with ss1 (ss_insts ss1) (ss_last ss1) (ss_reqs ss1 ++ [mkOReq KStart a p i manual k cnt false])
+      let ss2 := ss_marks ss1 (pair_remove a p (ss_manual_start ss1)) (ss_manual_stop ss1) (ss_user_apps ss1)
+                          (ss_plans ss1) in
+      ss_with ss2 (ss_insts ss2) (ss_last ss2) (ss_reqs ss2 ++ [mkOReq KStart a p i manual k cnt false false])
   | OStop i a p =>
-      let manual := pair_mem a p (ss_manual_stop ss) in
+      let manual := triple_mem a p i (ss_manual_stop ss) in
       let r := cf_rules cf a p in
       let cnt := match aget i (ss_insts ss) with Some ins => in_counter ins | None => 0 end in
       let others := filter (fun o => kind_eqb (o_kind o) KStop && negb (o_manual o) && negb (o_lost o)) (ss_reqs ss) in
@@ -1301,17 +1338,29 @@ Definition spec_out (cf : config) (k : Z) (ss : sspec) (o : out) : sspec :=
         let ss_b := ss_check ss_a (forallb (fun o => Z.eqb (o_a o) a
                                               || Z.eqb (cf_app_stop cf (o_a o)) (cf_app_stop cf a)) others) V_stop_app_order in
         ss_check ss_b (forallb (fun o => negb (Z.eqb (o_a o) a) || Z.eqb (o_op o) k) others) V_together in
-      ss_with ss1 (ss_insts ss1) (ss_last ss1) (ss_reqs ss1 ++ [mkOReq KStop a p i manual k cnt false])
+      let ss2 := ss_marks ss1 (ss_manual_start ss1)
+                          (filter (fun x => let '(a', p', i') := x in negb (Z.eqb a a' && Z.eqb p p' && Z.eqb i i'))
+                                  (ss_manual_stop ss1)) (ss_user_apps ss1) (ss_plans ss1) in
+      ss_with ss2 (ss_insts ss2) (ss_last ss2) (ss_reqs ss2 ++ [mkOReq KStop a p i manual k cnt false false])
   | OForced a p fs reason target =>
       let k' := if pstate_eqb fs FATAL then KStart else KStop in
       let reqs := filter (fun o => negb (kind_eqb (o_kind o) k' && Z.eqb (o_a o) a && Z.eqb (o_p o) p
                                          && match target with Some i => Z.eqb (o_i o) i | None => false end))
                          (ss_reqs ss) in
       let ss1 := ss_with ss (ss_insts ss) (ss_last ss) reqs in
+      let hit := filter (fun o => kind_eqb (o_kind o) k' && Z.eqb (o_a o) a && Z.eqb (o_p o) p
+                                  && match target with Some i => Z.eqb (o_i o) i | None => false end) (ss_reqs ss) in
       if Z.eqb reason (-1) then
-        let ss2 := spec_failure cf ss1 a p false in
+        (* no resource: the command was never requested; it is a user command when the mark is still there *)
+        let manual := pair_mem a p (ss_manual_start ss1) in
+        let ss2 := if manual
+                   then ss_marks ss1 (pair_remove a p (ss_manual_start ss1)) (ss_manual_stop ss1) (ss_user_apps ss1)
+                                 (ss_plans ss1)
+                   else spec_failure cf ss1 a p false in
         ss_flags ss2 (ss_aborts ss2) (ss_flag ss2) (ss_flag_to ss2) true
-      else match k' with KStart => spec_failure cf ss1 a p true | KStop => ss1 end
+      else match k' with
+           | KStart => if existsb (fun o => negb (o_manual o)) hit then spec_failure cf ss1 a p true else ss1
+           | KStop => ss1 end
   | OPub _ _ _ _ => ss
   end.
 
@@ -1328,14 +1377,15 @@ Definition spec_wait (cf : config) (ss : sspec) (o : oreq) : Z :=
 Definition spec_bound_ok (cf : config) (ss : sspec) : bool :=
   forallb (fun o =>
     let cnt := match aget (o_i o) (ss_insts ss) with Some ins => in_counter ins | None => 0 end in
-    let exempt := kind_eqb (o_kind o) KStart && pr_wait_exit (cf_rules cf (o_a o) (o_p o)) && negb (o_manual o)
+    let exempt := o_soft o || kind_eqb (o_kind o) KStart && pr_wait_exit (cf_rules cf (o_a o) (o_p o)) && negb (o_manual o)
                   && pstate_eqb (last_state ss (o_a o) (o_p o) (o_i o)) RUNNING in
     exempt || Z.leb cnt (o_ref o + spec_wait cf ss o)) (ss_reqs ss).
 
 Definition spec_after (cf : config) (ss : sspec) (o : op) (starting stopping : bool) : sspec :=
   let has k := existsb (fun o => kind_eqb (o_kind o) k) (ss_reqs ss) in
+  let has_hard k := existsb (fun o => kind_eqb (o_kind o) k && negb (o_soft o)) (ss_reqs ss) in
   (* a request in flight is always reported in progress *)
-  let ss1 := ss_check ss ((negb (has KStart) || starting) && (negb (has KStop) || stopping)) V_progress in
+  let ss1 := ss_check ss ((negb (has_hard KStart) || starting) && (negb (has_hard KStop) || stopping)) V_progress in
   match o with
   | OpCheck =>
       (* after the periodic check: nothing older than its bound, and progress is reported only for requests
@@ -1398,3 +1448,14 @@ Definition known_keyerror (cs : list case) : list nat := find_idx ends_with_keye
 Definition other_crashes (cs : list case) : list nat :=
   find_idx (fun c => match rev (snd c) with
                      | OCrash KeyError :: _ => false | OCrash _ :: _ => true | _ => false end) cs.
+
+(* evaluators used by the property checks: a spec violation outside the known classes, or any internal failure
+   other than the known KeyError, is a failing input *)
+Definition is_other_crash (c : case) : bool :=
+  match rev (snd c) with OCrash KeyError :: _ => false | OCrash _ :: _ => true | _ => false end.
+Definition failing_of (vs : list vio) (cs : list case) : list nat :=
+  find_idx (fun c => let ss := case_vios c in
+                     (negb (in_noresource_class ss) && has_vio vs ss) || is_other_crash c) cs.
+Definition failing_c03 := failing_of c03_vios.
+Definition failing_c09 := failing_of c09_vios.
+Definition failing_c10 := failing_of c10_vios.
